@@ -221,6 +221,41 @@ def osRemove (path : Str) (w : World) : GoErr × World :=
 def logPrintln (args : List Str) (w : World) : World :=
   (step "log" () (fun w => ((), { w with log := w.log ++ [(args.intersperse [32]).flatten] })) w).2
 
+/-! ### hashing (`hashBinary`) -/
+
+/-- SHA-256 as a function from contents to 32 bytes.  Nothing is assumed about it except, where a
+    theorem says so, the length of its result. -/
+opaque sha256 : Str → Str
+
+/-- `hash.Hash`: the bytes absorbed so far -/
+structure Hasher where
+  data : Str
+deriving Repr, DecidableEq
+
+/-- `*bufio.Reader` -/
+structure Reader where
+  file : File
+deriving Repr, DecidableEq
+
+def sha256New : Hasher := ⟨[]⟩
+def newReader (f : File) : Reader := ⟨f⟩
+/-- `h.Sum(nil)` -/
+def hashSum (h : Hasher) : Str := sha256 h.data
+
+def hexDigit (n : Nat) : Nat := if n < 10 then 48 + n else 87 + n
+/-- `hex.EncodeToString` -/
+def hexEncode : Str → Str
+  | [] => []
+  | b :: rest => hexDigit (b / 16 % 16) :: hexDigit (b % 16) :: hexEncode rest
+
+/-- `io.Copy(h, r)`: the hash absorbs the file, or the read fails (after absorbing some prefix) -/
+def ioCopy (h : Hasher) (r : Reader) (w : World) : (Nat × GoErr) × Hasher × World :=
+  let x := step "copy" ((0, GoErr.nil), h) (fun w =>
+    let content := (w.fs r.file.name).getD []
+    if w.faulty then (((0, GoErr.fail "read"), ⟨h.data ++ content.take (w.env.early w.steps)⟩), w)
+    else (((content.length, GoErr.nil), ⟨h.data ++ content⟩), w)) w
+  (x.1.1, x.1.2, x.2)
+
 /-- a deferred call: its results are discarded -/
 def deferred {α : Type} (p : World → α × World) (w : World) : World := (p w).2
 
@@ -250,6 +285,9 @@ def isHex (b : Nat) : Prop := (48 ≤ b ∧ b ≤ 57) ∨ (97 ≤ b ∧ b ≤ 10
 /-- a hex-encoded SHA-256: 64 lower-case hex digits -/
 def IsHash (h : Str) : Prop := h.length = 64 ∧ ∀ b ∈ h, isHex b
 
+instance (b : Nat) : Decidable (isHex b) := by unfold isHex; exact inferInstance
+instance (h : Str) : Decidable (IsHash h) := by unfold IsHash; exact inferInstance
+
 /-- what `hashBinary` can hand to `doObjdump`: a hash, or `""` (it swallows read errors) -/
 def HashOK (h : Str) : Prop := IsHash h ∨ h = []
 
@@ -268,7 +306,7 @@ def lookup (dump hash : Str) (w : World) : Bool × World :=
   if o.1.2 = .nil then
     let r := fileRead o.1.1 (mkBuf 64) o.2
     let c := fileClose o.1.1 r.2.2
-    (decide (r.1.2 = .nil ∧ r.1.1 = 64 ∧ hash = r.2.1), c.2)
+    (decide ((r.1.2 = .nil ∧ r.1.1 = r.2.1.length) ∧ hash = r.2.1), c.2)
   else (false, o.2)
 
 /-- what every return after `os.CreateTemp` runs: `f.Close()`, then `os.Remove(f.Name())` -/
@@ -302,6 +340,15 @@ def doObjdump (binary hash : Str) (w : World) : (Str × GoErr) × World :=
   let l := lookup d.1.1 hash d.2
   if l.1 = true then ((d.1.1, .nil), logPrintln [bytes "Using cached objdump."] l.2)
   else store binary d.1.1 hash l.2
+
+/-- `hashBinary(binary)`: the hex SHA-256 of the file — or `""` **without an error** when reading
+    fails (main.go returns `"", nil` there; `doObjdump` then never finds a cache entry) -/
+def hashBinary (binary : Str) (w : World) : (Str × GoErr) × World :=
+  let o := osOpen binary w
+  if o.1.2 ≠ .nil then (([], o.1.2), o.2) else
+  let c := ioCopy sha256New (newReader o.1.1) o.2
+  if c.1.2 ≠ .nil then (([], .nil), deferred (fileClose o.1.1) c.2.2)
+  else ((hexEncode (hashSum c.2.1), .nil), deferred (fileClose o.1.1) c.2.2)
 
 /-- The **pinned** protocol (before the repair): header and listing are streamed into the final
     path; the writer is flushed by a deferred call, i.e. also on the error path. -/
